@@ -61,7 +61,10 @@ def check_pair(R, x, y, tag):
         if name in ("hellinger", "total_variation") and d1 > 1 + 1e-9:
             R.fail("%s/range" % name, "%s returns %r > 1" % (name, d1), **inp)
         if prop and abs(d1) > 1e-6:
-            R.fail("%s/proportional" % name, "%s returns %r on proportional inputs" % (name, d1), **inp)
+            # (a total mass within a few orders of magnitude of the float32 epsilon that the divergences add to every entry before
+            # normalising is its own failure class, so that the known finding about it cannot hide a failure at ordinary scales)
+            tiny = min(xs.sum(), ys.sum()) < 1e-4
+            R.fail("%s/proportional%s" % (name, "-tiny-mass" if tiny else ""), "%s returns %r on proportional inputs" % (name, d1), **inp)
         if name in REFS:
             ref = REFS[name](xs, ys)
             if abs(ref - d1) > 1e-6 * max(1.0, abs(ref)) and abs(ref * ref - d1 * d1) > 1e-9:
@@ -150,7 +153,8 @@ def run(tier, seed):
                 with np.errstate(all="ignore"):
                     a, b, c = f(x.copy(), z.copy()), f(x.copy(), y.copy()), f(y.copy(), z.copy())
                 R.case(("tri", name, tuple(x), tuple(y), tuple(z)))
-                if np.isfinite([a, b, c]).all() and a > b + c + 1e-9:
+                # each term is only exact to the 1e-6 the property itself allows for "vanishes" (hellinger's sqrt turns 1e-16 into 1e-8)
+                if np.isfinite([a, b, c]).all() and a > b + c + 2e-6:
                     R.fail("%s/triangle" % name, "%s violates the triangle inequality: %r > %r + %r" % (name, a, b, c), x=x.tolist(), y=y.tolist(), z=z.tolist())
     # proportional pairs at several scales (the hellinger clamp)
     nprop = 400 if tier == "quick" else 5000
@@ -160,6 +164,8 @@ def run(tier, seed):
         c = rng.choice([0.3, 1.2428, 2.0, 7.77, 1e-3, 1e3])
         y = [c * e for e in x]
         check_pair(R, tuple(x), tuple(y), "prop")
+    # the recorded tiny-mass proportional pair (known finding), in every tier
+    check_pair(R, (0.0, 2.844704804745618e-07), (0.0, 5.796017666848061e-07), "tiny")
     if tier != "quick":
         for i in range(5000):
             d = rng.choice([1, 2, 4, 7])
